@@ -42,6 +42,19 @@ CLAIMED = {
             "on each record, new record, add_namespace incl. clashing, set_default_namespace, bundle(), the same "
             "inside each bundle) x side mutated (thorough: x a second mutation on the other side); the untouched "
             "side's ordered strict content and namespace observation must not change.", TECH, NOTE),
+    "C04": ("For every state of the 57-letter document alphabet to depth 3 (thorough 4) and every single-record shape, "
+            "the family of all one-step content-preserving variants (rotations, reversal, prefix renaming, record "
+            "duplication, rebuild, JSON/XML reload) and content-changing edits (identifier, kind, attribute value / "
+            "name / presence, record, bundle, bundle identifier, record placement) is realised through the public API; "
+            "== / != are evaluated on every ordered pair of documents, bundles and records of the family and compared "
+            "with set equality of strict observations; symmetry, reflexivity, transitivity over all triples, hash "
+            "consistency; scripts/prov-compare is run as a subprocess on a subset in both argument orders.", TECH, NOTE),
+    "C13": ("Every state of the document alphabet to depth 3 (thorough 4) x every ordered sequence of exporter calls "
+            "(PROV-JSON x options, PROV-XML x force_types, RDF, PROV-N, DOT x options, graph, ==, hash, unified, "
+            "flattened; longer sequences on shallower states): after every call the ordered strict content and the "
+            "namespace observation must be unchanged; the same export repeated, and on a twin document built by the "
+            "same calls, must give identical output (RDF under deterministic blank-node labels, else isomorphic).",
+            TECH, NOTE),
 }
 
 NA = {}
